@@ -173,13 +173,14 @@ static void SubCodeFill(
  * ------------------------------------------------------------------------ */
 
 static void MultCodeFill(tCurrCodeFill* b, LongWord a, struct sLayoutCtx* pCtx) {
+    LargeWord Fill = (LargeWord)b->LastWordFill * a;
+
     b->FullWordCnt *= a;
-    b->LastWordFill *= a;
     if (pCtx->ElemsPerFullWord > 1) {
-        LongWord div = b->LastWordFill / pCtx->ElemsPerFullWord,
-                 mod = b->LastWordFill % pCtx->ElemsPerFullWord;
-        b->FullWordCnt += div;
-        b->LastWordFill = mod;
+        b->FullWordCnt += (LongInt)(Fill / pCtx->ElemsPerFullWord);
+        b->LastWordFill = (int)(Fill % pCtx->ElemsPerFullWord);
+    } else {
+        b->LastWordFill = (int)Fill;
     }
 }
 
@@ -1146,6 +1147,23 @@ static Boolean DecodeIntelPseudo_LayoutMult(
             tCurrCodeFill Diff;
 
             SubCodeFill(&Diff, &DUPEndFill, &DUPStartFill, pCtx);
+
+            /* the reserved size must stay representable: a huge count
+               would otherwise wrap around to a small reservation */
+
+            {
+                LargeInt Elems = (pCtx->ElemsPerFullWord > 1) ? pCtx->ElemsPerFullWord : 1;
+                LargeInt DiffElems = (LargeInt)Diff.FullWordCnt * Elems + Diff.LastWordFill;
+                LargeInt CurrElems = (LargeInt)pCtx->CurrCodeFill.FullWordCnt * Elems
+                                   + pCtx->CurrCodeFill.LastWordFill;
+                LargeInt MaxElems = ((LargeInt)0x7fffffff + 1) * Elems - 1;
+
+                if ((DiffElems > 0) && ((DupCnt - 1) > (MaxElems - CurrElems) / DiffElems)) {
+                    WrStrErrorPos(ErrNum_OverRange, &DupArg);
+                    Result = False;
+                    goto func_exit;
+                }
+            }
             MultCodeFill(&Diff, DupCnt - 1, pCtx);
             IncCodeFillBy(&pCtx->CurrCodeFill, &Diff, pCtx);
             break;
